@@ -39,7 +39,7 @@ CHECKS = {
    "The soundness half is a pure relation on the tuple; the simulator contributes the HashReader/tile-transport fault model. Trusts SHA-256 and sim/ref. Sampled beyond the swept range.", "4 (C03)"),
  "C07": ("sumdbsim", "deterministic simulation of a cosigning chain over a corrupting transport with simulator-implemented Verifiers/Verifier/Signer seams (spies, verdict-decided fakes, failing signers, reused receive buffers); reference note parser + crypto/ed25519 oracle",
    "Seeded chains of origin, 0-4 witnesses and a final reader; every Open is compared with the documented semantics computed independently (accept/reject, text, verified/unverified partition, UnverifiedNoteError content, each verified signature backed by a recorded Verify call over the returned text), every Sign with the exact documented bytes.",
-   "Trusts Ed25519 and the reference parser. Repeated signature lines of one known key: only the first is verified, as the package documents.", "4 (C07)"),
+   "Trusts Ed25519 and the reference parser. Every signature line of a known key is verified, repeated ones included (the reference once copied the code's behaviour of skipping them: defect D16).", "4 (C07)"),
  "C09": ("sumdbsim", "deterministic simulation of a log store built only from tlog.StoredHashes with failing store reads, compared after every append with a reference RFC 6962 tree; virtual uniform logs for sizes beyond memory",
    "Seeded append histories (1-120, thorough 2000 records; texts with Unicode, U+FFFD, buffer-boundary lengths) with store read faults at random appends; after each append store length, coordinates of every new position, every stored hash and TreeHash(m) for all m (<=128) are checked against the reference; coordinates up to 2^60 records and a virtual log up to 2^44 records cover index arithmetic beyond 32 bits; text encodings round-trip. Every third run interleaves 2-4 logs of one process at the HashReader seam (whole operations of other logs run while one is parked inside its read, some after failed reads).",
    "The layout laws are pure relations; the only injectable fault is the HashReader seam. Trusts SHA-256 and sim/ref.", "4 (C09)"),
@@ -76,7 +76,7 @@ def main():
        {"name":"modsim","path":"/verif/sim (props/c08,c15,c16)","serves_properties":["C08","C15","C16"],"kind_free_text":"edit-session simulator: operation histories with persistence points against a set/map reference model"},
      ],
      "checks": [],
-     "notes": "All checks: `./check <ID> quick|thorough`, replay with `./check <ID> --replay <file>`. Exit 0 held / 1 violation / 2 build or harness trouble. Genuine defects: 15 repaired by fix: commits in /repo (D1-D15), 3 recorded as open known findings (F1: C13; F2: C12; F3: C15 and C08); see known_findings.json, findings/, seeded/ and DESIGN.md sections 8, 11, 12.",
+     "notes": "All checks: `./check <ID> quick|thorough`, replay with `./check <ID> --replay <file>`. Exit 0 held / 1 violation / 2 build or harness trouble. Genuine defects: 16 repaired by fix: commits in /repo (D1-D16), 3 recorded as open known findings (F1: C13; F2: C12; F3: C15 and C08); see known_findings.json, findings/, seeded/ and DESIGN.md sections 8, 11, 12.",
      "not_applicable": [{"property_id":k,"reason":v} for k,v in sorted(NA.items())],
     }
     for pid,(eng,tech,text,note,ref) in sorted(CHECKS.items()):
